@@ -174,7 +174,15 @@ class UTPM(Ring, RawAlgorithmsMixIn):
         else:
             # print 'out=\n', out[0][sl]
             # print 'ybar=\n',ybar
-            out[0][sl] = ybar
+            if isinstance(y, cls) and isinstance(x, cls) and not numpy.may_share_memory(y.data, x.data):
+                # advanced (integer array / boolean mask) indexing returned a copy: ybar is a
+                # buffer of its own, its content has to be added to the selected entries of xbar
+                # (repeated indices accumulate)
+                if not isinstance(sl, tuple):
+                    sl = (sl,)
+                numpy.add.at(out[0].data, (slice(None), slice(None)) + sl, ybar.data)
+            else:
+                out[0][sl] = ybar
 
         return out
 
